@@ -52,7 +52,7 @@ static void bufferRound(int producers, long perProducer, int pace, long round, u
   std::atomic<bool> producersDone(false), stopPoll(false);
   std::atomic<int> go(0);
   std::vector<std::vector<T>> batches;
-  std::atomic<long> sizeViol(0), polls(0), maxSizeSeen(0);
+  std::atomic<long> sizeViol(0), polls(0), maxSizeSeen(0), tornViol(0);
   std::atomic<long> consumedTotal(0);
 
   std::vector<std::thread> prod;
@@ -80,9 +80,23 @@ static void bufferRound(int producers, long perProducer, int pace, long round, u
     vh::Rng r(rs, 7);
     while (!go.load()) {
     }
+    const bool pollFirst = (round & 2) != 0;  // the documented polling pattern: consume only when !empty()
     for (;;) {
       bool done = producersDone.load();
+      // this thread is the only one that takes elements out: what size()/empty() report can only grow until the
+      // consume() that follows, so that batch holds at least as many elements
+      size_t s = buf.size();
+      bool e   = buf.empty();
+      if (pollFirst && e) {
+        if (done)
+          break;
+        if (r.chance(1, 8))
+          std::this_thread::yield();
+        continue;
+      }
       std::vector<T> b = buf.consume();
+      if (b.size() < s || (!e && b.empty()))
+        tornViol.fetch_add(1);
       if (!b.empty()) {
         consumedTotal.fetch_add((long)b.size(), std::memory_order_relaxed);
         batches.push_back(std::move(b));
@@ -124,6 +138,8 @@ static void bufferRound(int producers, long perProducer, int pace, long round, u
   stopPoll.store(true);
   poller.join();
 
+  if (tornViol.load())
+    vh::violation("C12:buffer:size-or-empty-reported-a-state-the-buffer-was-not-in", std::to_string(tornViol.load()) + " time(s) the only consumer read size()==k / !empty() and the consume() right after it returned fewer than k elements / nothing", ctx);
   // quiescence: everything consumed
   VH_CHECK(buf.size() == 0 && buf.empty(), "C12:buffer:not-empty-after-final-consume", "size()=" + std::to_string(buf.size()) + " empty()=" + (buf.empty() ? "true" : "false") + " after the last consume()", ctx);
   // empty()/size() agree under quiescence with content
